@@ -7,6 +7,8 @@ import argparse
 import logging
 import warnings
 
+from botocore.exceptions import BotoCoreError, ClientError
+
 from .mostypes import MosFile, RunningOrder
 from .moscollection import MosCollection
 from .utils import s3
@@ -202,6 +204,10 @@ class CLI:
                 except MosRoMgrException as e:
                     sys.stderr.write(f"{file}: Invalid\n")
                     continue
+                except OSError as e:
+                    # a missing or unreadable file must not stop the others
+                    sys.stderr.write(f"{file}: Invalid ({e.strerror or e})\n")
+                    continue
                 self.detect_file(mo, file)
                 if inspect:
                     mo.inspect()
@@ -230,6 +236,10 @@ class CLI:
                     mo = MosFile.from_s3(self._args.bucket_name, mos_file_key)
                 except MosRoMgrException as e:
                     sys.stderr.write(f"{mos_file_key}: Invalid\n")
+                    continue
+                except (OSError, BotoCoreError, ClientError) as e:
+                    # a missing or unreadable object must not stop the others
+                    sys.stderr.write(f"{mos_file_key}: Invalid ({e})\n")
                     continue
                 self.detect_file(mo, mos_file_key)
                 if inspect:
